@@ -26,6 +26,18 @@ R1  canonical-form comparison: ISA temperature / pressure / altitude, air densit
     definition, tuple unpacking component-wise, calls of the module's own plain functions replaced by what they return
     (parameters bound to the arguments), module-level and imported constants folded, parameters that are optional
     knobs (numeric default, not a symbol of the cited equation) at their default.
+    *Containers that only carry values are read through*: field f (or position i, or the i-th unpacking target) of the
+    construction of a plain record of the program (NamedTuple / dataclass of annotated fields without construction or
+    attribute hooks; defaults filled in; `Rec(*seq)` when seq is decided; a read-only property that is one `return` over
+    the fields is that expression) is the argument bound to f; `(a, b, c)[1]` is b; element i of `(f(m) for m in
+    ThrustMode)` / `tuple(..)` / `[.. for ..]` (also over a display, also reversed()) is f(<i-th member>); an element-wise
+    numpy function of a sequence is the function of the element; `P.as_array()[i]` is P at the i-th member of ThrustMode.
+    So `logs = _ModeLogs(*(np.log10(x[m]) for m in ThrustMode)); logs.climb` is np.log10(x[ThrustMode.CLIMB]), whether or
+    not the engine's record erasure (structnorm T) applied.  FFM2, the HC/CO slope / level / intercept pieces (each read
+    where it is computed), BFFM2 and SOx all go through this.
+    A code form that uses only some of the reference's logarithm terms (the reference's being logarithms of distinct
+    symbols, hence algebraically independent) and is not equal as a polynomial in them is a definite difference
+    (`0.5 * (log EI_climb + log EI_climb)` against `0.5 * (log EI_climb + log EI_takeoff)`), not a change of structure.
     BFFM2 NOx: the NOx field of the result is one product; its factors that read only Tamb / Pamb are the ambient
     correction, compared as a whole with eqs. (44)-(45) expanded (theta, delta, P_psia, beta, Pv, omega, H); a
     difference is pinned to the innermost cited sub-expression it lies in (opaque atoms - exp, log10, non-integer powers
@@ -58,9 +70,16 @@ R3  identities: sulfur atoms conserved (EI_SO2/MW_SO2 + EI_SO4/MW_SO4 â‰¡ SÂ·10Â
 R4  thrust categories are total, single-valued and ascending: the category of one fuel flow is evaluated for
     calibration flows in every order (monotone, reversed, equal, mixed), at and around both mid-points; documented:
     idle up to and including mid(idle, approach), climb strictly above mid(approach, climb), approach otherwise, the
-    first rule that applies winning.  np.select, nested np.where, named masks, np.digitize / searchsorted (with
-    numpy's numbering for descending bins) are all just functions of the point.
+    first rule that applies winning.  np.select, nested np.where, named masks, mask arithmetic (`&`, `|`, `~`,
+    `.astype(int)` sums, np.count_nonzero), np.digitize / searchsorted (with numpy's numbering for descending bins) over
+    thresholds as written / sorted / np.maximum.accumulate'd, and a look-up of the resulting position in a category table
+    (local or module-level; `T[i]`, np.take) are all just functions of the point.  When the deviating point went through
+    np.digitize with out-of-order thresholds the report says so (numpy silently numbers descending bins from the top).
 R6  per-mode values become arrays (and back) in the order of the ThrustMode enumeration, never in dict insertion order.
+    On demand (only when an element-wise routine looks a value up with `ThrustModeValues(..).broadcast(modes)`, which the
+    point-wise runs read as "the value of the point's own mode"; a ThrustModeValues built in place from four positional
+    values, one sequence of four, or a {mode: value} display is a per-mode table): broadcast gives every point whose
+    mode is m the value self[m], for every member m.
 R5  HC/CO clamping rules (a) (b) (c) applied in the documented order.  The five scalars that shape the fit (break
     point, level, slope, base fuel flow, base EI) are computed by running the function's own scalar prelude, in exact
     rational arithmetic over the log10 values of the eight certification numbers, for a representative of every
@@ -68,8 +87,11 @@ R5  HC/CO clamping rules (a) (b) (c) applied in the documented order.  The five 
     approach flows equal / nearly equal / ordered / reversed, approach against climb flow, and the raw intersection
     below / at / between / at / above the approach and climb flows.  The resulting fit must equal the documented rule
     table run on the same inputs ("slope == 0" read with np.isclose's tolerance, or exactly).  Merged steps,
-    reordered or nested tests, flags and guard variables do not matter; which fit each region gets does.  Two
-    embedded preludes (documented chain; flatten rule tested first) are the positive controls.
+    reordered or nested tests, flags and guard variables do not matter; which fit each region gets does.  The
+    logarithms may travel in per-mode tuples, comprehensions over ThrustMode or plain records (fields, positions,
+    unpacking).  When the code's break point / level sits on another mode's certification number than the documented
+    one, the report names both modes (`the code's break point is the TAKEOFF calibration flow, documented the CLIMB
+    one`).  Two embedded preludes (documented chain; flatten rule tested first) are the positive controls.
 
 Not decided: MEEM, the HC/CO bilinear fit's numerical behaviour, anything
 phrased over the whole real input range (finiteness, sign, monotone in value).
@@ -152,6 +174,14 @@ def _cmp(ctx, rule, fi, what, code_expr, ref, consts, rename=None, stop=(), refd
         d = explain_difference(code, want)
         if d is not None and d[2]:
             v, why = 'different', d[1]
+    if v == 'undecided' and _independent_logs(want):
+        # the reference's opaque terms are logarithms of distinct symbols: algebraically independent functions.  A code
+        # form built from only some of them (log10(a) + log10(a) where the reference has log10(a) + log10(b)) and not
+        # equal as a polynomial in them is a different function
+        from ..conform import opaque_atoms
+        ca, wa = opaque_atoms(code), opaque_atoms(want)
+        if ca < wa:
+            v, why = 'different', (f'the code has no {", ".join(sorted(wa - ca))} term: code âˆ’ reference = {str(code - want)[:200]}')
     if v == 'undecided':
         for label, other in (alts or {}).items():
             try:
@@ -166,6 +196,25 @@ def _cmp(ctx, rule, fi, what, code_expr, ref, consts, rename=None, stop=(), refd
            'equal to the cited equation as an exact canonical form' if v == 'equal' else
            f'differs from the cited equation `{ref[:90]}`: {why}', line=line or getattr(code_expr, 'lineno', 0))
     return v == 'equal'
+
+
+def _independent_logs(r):
+    """every opaque term of the normal form is log / log10 of a bare symbol, all symbols distinct"""
+    from ..algebra import ATOM_PARTS
+    from ..conform import opaque_atoms
+    seen = set()
+    for a in opaque_atoms(r):
+        h, args, kws = ATOM_PARTS.get(a, (None, [], ()))
+        if h not in ('log', 'log10') or len(args) != 1 or kws or not hasattr(args[0], 'num'):
+            return False
+        x = args[0]
+        if list(x.den.keys()) != [()] or len(x.num) != 1:
+            return False
+        (mono, c), = x.num.items()
+        if c != x.den[()] or len(mono) != 1 or mono[0][1] != 1 or mono[0][0] in ATOM_PARTS or mono[0][0] in seen:
+            return False
+        seen.add(mono[0][0])
+    return bool(seen)
 
 
 def _where(fi, name):
@@ -187,6 +236,93 @@ def _cp(n):
 
 
 _MODULE_EXPR_MEMO: dict = {}     # id(module tree) -> (tree kept alive, {name: module-level arithmetic definition or None})
+
+
+class RecordValue(list):
+    """[(field, value expression or None)] of one construction of a plain record, in declaration order; `props`:
+    {name: (name of self, returned expression)} of the class's read-only properties that are one `return`"""
+    props: dict = {}
+
+
+def record_classes(prog, m):
+    """records(call) -> RecordValue when `call` constructs a *plain record* of the program as seen from module `m` - a
+    NamedTuple, or a @dataclass, whose body is annotated fields (ClassVar left out; no field() factories), docstrings,
+    and methods that do not take part in construction or attribute access (no __new__ / __init__ / __post_init__ /
+    __getattr__ / __getattribute__ / __getitem__ / __iter__, none named like a field) - missing arguments filled from the
+    declared defaults; None for every other call.  Reading field f of such a value is reading the argument bound to f,
+    reading a property that is one `return <expression over self.fields>` is reading that expression: the record is a
+    way of passing values, not a computation of its own."""
+    memo = {}
+    hooks = {'__new__', '__init__', '__post_init__', '__getattr__', '__getattribute__', '__getitem__', '__iter__', '__setattr__'}
+
+    def fields_of(ci):
+        if id(ci) in memo:
+            return memo[id(ci)]
+        memo[id(ci)] = None
+        node = ci.node
+        decs = [norm(d.func if isinstance(d, ast.Call) else d).split('.')[-1] for d in node.decorator_list]
+        bases = [b.split('.')[-1] for b in ci.base_exprs]
+        is_nt = bases == ['NamedTuple'] and not decs
+        is_dc = decs == ['dataclass'] and not bases
+        if not (is_nt or is_dc) or node.keywords:
+            return None
+        out, props, methods = [], {}, set()
+        for s in node.body:
+            if isinstance(s, ast.AnnAssign) and isinstance(s.target, ast.Name):
+                if 'ClassVar' in norm(s.annotation):
+                    continue
+                if isinstance(s.value, ast.Call) and call_name(s.value).split('.')[-1] == 'field':
+                    return None
+                out.append((s.target.id, s.value))
+            elif isinstance(s, ast.Expr) and isinstance(s.value, ast.Constant):
+                continue
+            elif isinstance(s, ast.Pass):
+                continue
+            elif isinstance(s, ast.FunctionDef) and s.name not in hooks:
+                methods.add(s.name)
+                body = [b for b in s.body if not (isinstance(b, ast.Expr) and isinstance(b.value, ast.Constant))]
+                if [norm(d) for d in s.decorator_list] == ['property'] and len(body) == 1 and isinstance(body[0], ast.Return) \
+                        and body[0].value is not None and len(s.args.args) == 1 and not s.args.kwonlyargs:
+                    props[s.name] = (s.args.args[0].arg, body[0].value)
+            else:
+                return None           # class attributes, hooks into construction / attribute access: more than a record
+        if not out or methods & {f for f, _ in out}:
+            return None
+        memo[id(ci)] = (out, props)
+        return memo[id(ci)]
+
+    def declared(call):
+        """([(field, default or None)], properties) of the record class `call` constructs, or None"""
+        if not isinstance(call, ast.Call) or not isinstance(call.func, (ast.Name, ast.Attribute)):
+            return None
+        ci = prog.resolve_name(m, call.func.id) if isinstance(call.func, ast.Name) else prog.resolve_class_expr(m, call.func)
+        if ci is None or not hasattr(ci, 'annotated_fields'):
+            return None
+        return fields_of(ci)
+
+    def records(call, element=None):
+        """element(sequence expression, i) -> its i-th element or None: lets `Rec(*seq)` be read when seq is decided"""
+        fp = declared(call)
+        if fp is None:
+            return None
+        fs, props = fp
+        args = list(call.args)
+        if len(args) == 1 and isinstance(args[0], ast.Starred) and not call.keywords and element is not None:
+            args = [element(args[0].value, i) for i in range(len(fs))]
+            if any(a_ is None for a_ in args) or element(call.args[0].value, len(fs)) is not None:
+                return None
+        if any(isinstance(a_, ast.Starred) for a_ in args) or any(k.arg is None for k in call.keywords) or len(args) > len(fs):
+            return None
+        got = dict(zip([f for f, _ in fs], args))
+        for k in call.keywords:
+            if k.arg in got or k.arg not in [f for f, _ in fs]:
+                return None
+            got[k.arg] = k.value
+        rv = RecordValue((f, got.get(f, d)) for f, d in fs)
+        rv.props = props
+        return rv
+    records.declared = declared
+    return records
 
 
 class ValueCase:
@@ -212,9 +348,15 @@ class ValueCase:
 
     OTHER = '\x00any-other-value'
 
-    def __init__(self, fn, var=None, val=None, module_tree=None, opener=None, _depth=0, numbers=None, components=False):
+    def __init__(self, fn, var=None, val=None, module_tree=None, opener=None, _depth=0, numbers=None, components=False,
+                 records=None, enums=None):
         from ..cfg import CFG
         self.fn, self.var, self.val = fn, var, val
+        # enums: name of an enumeration -> its members in declaration order; `tuple(f(m) for m in Enum)[i]` is
+        # f(Enum.<i-th member>)
+        self.enums = dict(enums or {})
+        # records: see record_classes(); `Rec(a, b).f`, `Rec(a, b)[i]` and `x, y = Rec(a, b)` read the argument
+        self.records = records
         # components: `a, b = f(x)` resolves a to `f(x)[0]` (the value, free of the local's name) instead of staying `a`
         self.components = components
         # numbers: name -> value of the module's numeric constants; with a numeric `val` a condition on `var` that is
@@ -500,7 +642,7 @@ class ValueCase:
         key = id(callee)
         if key not in self._sub:
             self._sub[key] = ValueCase(callee, None, None, self.module_tree, self.opener, self._depth + 1, self.numbers,
-                                       components=self.components)
+                                       components=self.components, records=self.records, enums=self.enums)
         sub = self._sub[key]
         at = sub.node_of(rets[0])
         if at is None:
@@ -520,6 +662,95 @@ class ValueCase:
             def visit_Lambda(self, n):
                 return n
         return B().visit(r)
+
+    def _comp_item(self, v, i):
+        """element i of `(f(x) for x in <display or enumeration>)`, also wrapped in tuple() / list() / np.array(): f(<i-th item>);
+        None when `v` is not such a comprehension or the position does not exist"""
+        while isinstance(v, ast.Call) and call_name(v).split('.')[-1] in ('tuple', 'list', 'array', 'asarray') and len(v.args) == 1 \
+                and not v.keywords and isinstance(v.args[0], (ast.GeneratorExp, ast.ListComp, ast.Call)):
+            v = v.args[0]
+        if not isinstance(v, (ast.GeneratorExp, ast.ListComp)) or len(v.generators) != 1:
+            return None
+        g = v.generators[0]
+        if g.ifs or g.is_async or not isinstance(g.target, ast.Name):
+            return None
+        it = g.iter
+        if isinstance(it, ast.Call) and call_name(it) in ('list', 'tuple', 'iter') and len(it.args) == 1 and not it.keywords:
+            it = it.args[0]
+        backwards = False
+        while isinstance(it, ast.Call) and call_name(it) in ('reversed', 'list', 'tuple', 'iter') and len(it.args) == 1 and not it.keywords:
+            backwards ^= call_name(it) == 'reversed'
+            it = it.args[0]
+        if isinstance(it, (ast.Tuple, ast.List)) and not any(isinstance(x, ast.Starred) for x in it.elts):
+            items = list(it.elts)
+        elif isinstance(it, ast.Name) and it.id in self.enums and it.id not in self.locals and it.id not in self.params:
+            items = [ast.Attribute(ast.Name(it.id, ast.Load()), mem, ast.Load()) for mem in self.enums[it.id]]
+        else:
+            return None
+        if backwards:
+            items.reverse()
+        if not -len(items) <= i < len(items):
+            return None
+        tgt, item = g.target.id, items[i]
+
+        class S(ast.NodeTransformer):
+            def visit_Name(self, x):
+                return _cp(item) if x.id == tgt and isinstance(x.ctx, ast.Load) else x
+        return ast.fix_missing_locations(ast.copy_location(S().visit(_cp(v.elt)), v))
+
+    ELEMENTWISE = ('log10', 'log', 'log2', 'exp', 'sqrt', 'abs', 'absolute', 'asarray', 'array', 'asanyarray', 'float64')
+
+    def _element(self, v, i, depth=0):
+        """element i of a sequence value: `(a, b, c)[1]` is b; an element-wise numpy function of a sequence is the function
+        of the element (`np.log10(X)[i]` is `np.log10(X[i])`); `P.as_array()[i]` is P at the i-th member of ThrustMode (the
+        only as_array of the repository is ThrustModeValues', in enumeration order by C12-R6).  None when not decided."""
+        if depth > 6:
+            return None
+        if isinstance(v, (ast.Tuple, ast.List)):
+            if any(isinstance(x, ast.Starred) for x in v.elts) or not -len(v.elts) <= i < len(v.elts):
+                return None
+            return v.elts[i]
+        ci = self._comp_item(v, i)
+        if ci is not None:
+            return ci
+        if isinstance(v, ast.Call) and not v.keywords and len(v.args) == 1 and call_name(v).split('.')[0] in ('np', 'numpy') \
+                and call_name(v).split('.')[-1] in self.ELEMENTWISE and len(call_name(v).split('.')) == 2:
+            inner = self._element(v.args[0], i, depth + 1)
+            return None if inner is None else ast.copy_location(ast.Call(_cp(v.func), [inner], []), v)
+        modes = self.enums.get('ThrustMode')
+        if isinstance(v, ast.Call) and isinstance(v.func, ast.Attribute) and v.func.attr == 'as_array' and not v.args and not v.keywords \
+                and modes and -len(modes) <= i < len(modes):
+            return ast.fix_missing_locations(ast.copy_location(
+                ast.Subscript(_cp(v.func.value), ast.Attribute(ast.Name('ThrustMode', ast.Load()), modes[i], ast.Load()), ast.Load()), v))
+        return None
+
+    def _field(self, v, key):
+        """field `key` (name or position) of the value `v` when `v` is the construction of a plain record: the argument"""
+        fs = self.records(v, self._element) if self.records is not None else None
+        if fs is None:
+            return None
+        if isinstance(key, int):
+            return fs[key][1] if -len(fs) <= key < len(fs) else None
+        for f, e in fs:
+            if f == key:
+                return e
+        if key in fs.props and all(e is not None for _, e in fs):
+            # a property that is one expression over the fields: that expression over the arguments
+            me_, body = fs.props[key]
+            vals = dict(fs)
+
+            class P(ast.NodeTransformer):
+                def visit_Attribute(self, x):
+                    if isinstance(x.value, ast.Name) and x.value.id == me_ and x.attr in vals and isinstance(x.ctx, ast.Load):
+                        return _cp(vals[x.attr])
+                    return self.generic_visit(x)
+
+                def visit_Lambda(self, x):
+                    return x
+            out = P().visit(_cp(body))
+            if not any(isinstance(x, ast.Name) and x.id == me_ for x in ast.walk(out)):
+                return out
+        return None
 
     def resolve(self, e, at, stop=(), quiet=False, depth=0):
         import copy
@@ -559,16 +790,13 @@ class ValueCase:
                     if isinstance(v, (ast.Tuple, ast.List)) and len(v.elts) > d[2] and \
                             not any(isinstance(x, ast.Starred) for x in v.elts):
                         return v.elts[d[2]]
-                    if isinstance(v, (ast.GeneratorExp, ast.ListComp)) and len(v.generators) == 1 and not v.generators[0].ifs \
-                            and isinstance(v.generators[0].target, ast.Name) and isinstance(v.generators[0].iter, (ast.Tuple, ast.List)) \
-                            and len(v.generators[0].iter.elts) > d[2] and not any(isinstance(x, ast.Starred) for x in v.generators[0].iter.elts):
-                        # a, b, c = (f(x) for x in (p, q, r)): the i-th component is f(<i-th element>)
-                        tgt, item = v.generators[0].target.id, v.generators[0].iter.elts[d[2]]
-
-                        class S(ast.NodeTransformer):
-                            def visit_Name(self, x):
-                                return _cp(item) if x.id == tgt and isinstance(x.ctx, ast.Load) else x
-                        return S().visit(_cp(v.elt))
+                    rf = me._field(v, d[2])
+                    if rf is not None:
+                        return rf
+                    # a, b, c = (f(x) for x in (p, q, r)): the i-th component is f(<i-th element>)
+                    ci = me._element(v, d[2])
+                    if ci is not None:
+                        return ci
                     if me.components and isinstance(v, ast.Call):
                         return ast.copy_location(ast.Subscript(v, ast.Constant(d[2]), ast.Load()), n)
                     return n                      # one component of one value: a symbol
@@ -614,6 +842,18 @@ class ValueCase:
             def visit_Subscript(self, n):
                 n = self.generic_visit(n)
                 v = pick(n.value, n.slice, None, n)
+                if v is None and isinstance(n.ctx, ast.Load) and isinstance(n.slice, ast.Constant) and isinstance(n.slice.value, int) \
+                        and not isinstance(n.slice.value, bool):
+                    v = me._field(n.value, n.slice.value)
+                    if v is None:
+                        v = me._comp_item(n.value, n.slice.value)
+                    if v is None:
+                        v = me._element(n.value, n.slice.value)
+                return v if v is not None else n
+
+            def visit_Attribute(self, n):
+                n = self.generic_visit(n)
+                v = me._field(n.value, n.attr) if isinstance(n.ctx, ast.Load) else None
                 return v if v is not None else n
 
             def visit_Call(self, n):
@@ -1034,6 +1274,20 @@ def rule_ffm2(ctx):
     fi = m.func('get_SLS_equivalent_fuel_flow')
     r = [n for n in walk_no_nested(fi.node) if isinstance(n, ast.Return)]
     vis = visible_constants(prog, m)
+    # the value returned, followed back through its definitions (locals, the module's own helpers, records that only
+    # carry values from one statement to the next); the function's own parameters stay symbols
+    if len(r) != 1 or r[0].value is None:
+        ctx.undecided('C12-R1', fi, 'FFM2 Wf_SL', f'{len(r)} return statements')
+    try:
+        vc = ValueCase(fi.node, module_tree=m.tree, opener=same_module_opener(m), records=record_classes(prog, m))
+        at = vc.node_of(r[0])
+        wf = vc.resolve(r[0].value, at) if at is not None else r[0].value
+        if vc.unresolved:
+            ctx.undecided('C12-R1', fi, 'FFM2 Wf_SL', f'{sorted(vc.unresolved)} have several definitions reaching the return')
+    except Undecidable as ex:
+        ctx.undecided('C12-R1', fi, 'FFM2 Wf_SL', str(ex))
+    wf = ast.copy_location(wf, r[0].value)
+    r = [ast.copy_location(ast.Return(wf), r[0])]
     _cmp(ctx, 'C12-R1', fi, 'FFM2 Wf_SL', r[0].value, REF.FFM2['Wf_SL'], vis)
     dflt = param_defaults(fi.node, vis)
     for k, v in REF.FFM2['defaults'].items():
@@ -1067,6 +1321,7 @@ def rule_ffm2(ctx):
     bad = None
     n = 0
     seen = set()
+    recs = record_classes(prog, m)
     try:
         for idle, app, climb in ((1, 3, 7), (7, 3, 1), (2, 2, 2), (1, 5, 3), (5, 1, 3), (3, 1, 5)):
             low, appr = Fraction(idle + app, 2), Fraction(app + climb, 2)
@@ -1074,7 +1329,9 @@ def rule_ffm2(ctx):
             for ff in sorted({Fraction(0), low, appr, (low + appr) / 2, low - Fraction(1, 4), low + Fraction(1, 4),
                               appr - Fraction(1, 4), appr + Fraction(1, 4), Fraction(9)}):
                 want = 'ThrustMode.IDLE' if ff <= low else 'ThrustMode.CLIMB' if ff > appr else 'ThrustMode.APPROACH'
-                run = ScalarRun(cat.node, {p_cal: cal}, vis, env={p_ff: ff}, enums={'ThrustMode': THRUST_MODES}, wrappers=wrappers)
+                run = ScalarRun(cat.node, {p_cal: cal}, vis, env={p_ff: ff}, enums={'ThrustMode': THRUST_MODES}, wrappers=wrappers,
+                                module_tree=m.tree, helpers={k: v for k, v in plain_functions(m).items() if v is not cat.node},
+                                records=recs)
                 run.run()
                 got = run.returned
                 n += 1
@@ -1083,7 +1340,7 @@ def rule_ffm2(ctx):
                     raise Undecidable(f'the category of a point is not decided by comparisons of the fuel flow with the '
                                       f'calibration flows (returned {got!r})')
                 if got != want and bad is None:
-                    bad = (idle, app, climb, ff, low, appr, want, got)
+                    bad = (idle, app, climb, ff, low, appr, want, got, run.notes)
     except Undecidable as ex:
         ctx.undecided('C12-R4', cat, 'thrust categories', str(ex))
     ctx.floor('C12-R4', len(seen), 3, 'thrust categories reached by the evaluation points')
@@ -1091,10 +1348,14 @@ def rule_ffm2(ctx):
     why = (f'low â‰¤ mid(idle, approach) < approach â‰¤ mid(approach, climb) < high at all {n} evaluation points (calibration flows '
            'in every order): total, single-valued, ascending in fuel flow')
     if bad is not None:
-        idle, app, climb, ff, low, appr, want, got = bad
+        idle, app, climb, ff, low, appr, want, got, notes = bad
         why = (f'thrust categories are no longer the documented partition of the fuel-flow axis: with calibration flows idle {idle}, approach {app}, '
                f'climb {climb} (mid-points {float(low):g} and {float(appr):g}) a fuel flow of {float(ff):g} is {got.split(".")[-1]}, documented {want.split(".")[-1]}')
-    sel = [c for c in calls_in(cat.node) if call_name(c).split('.')[-1] in ('select', 'where')]
+        if notes:
+            why += f' [`{norm(notes[0][0])[:70]}`: {notes[0][1]}]'
+    sel = [c for c in calls_in(cat.node) if call_name(c).split('.')[-1] in ('select', 'where', 'digitize', 'searchsorted')]
+    if bad is not None and bad[8]:
+        sel = [bad[8][0][0]]
     ctx.ob('C12-R4', cat, 'thrust category of a fuel flow: idle / approach / climb by the two mid-points', ok, why,
            line=(sel[0].lineno if sel else cat.node.lineno))
     for nm, a_, b_ in (('lowLimit', 'IDLE', 'APPROACH'), ('approachLimit', 'APPROACH', 'CLIMB')):
@@ -1177,7 +1438,7 @@ def rule_bffm2(ctx):
     fi = m.func('BFFM2_EINOx')
     vis = visible_constants(prog, m)
     B = REF.BFFM2
-    vc = ValueCase(fi.node, module_tree=m.tree, opener=same_module_opener(m), components=True)
+    vc = ValueCase(fi.node, module_tree=m.tree, opener=same_module_opener(m), components=True, records=record_classes(prog, m))
     rets = [r for r in walk_no_nested(fi.node) if isinstance(r, ast.Return) and r.value is not None]
     if len(rets) != 1 or vc.node_of(rets[0]) is None:
         ctx.undecided('C12-R1', fi, 'return', f'{len(rets)} return statements')
@@ -1305,7 +1566,8 @@ def rule_bffm2(ctx):
     try:
         for k, f_ in enumerate(samples):
             pts = {p_eval: f_, fi.params[2]: f_ * 3 if len(fi.params) > 2 else None, fi.params[1]: abs(f_) * 11 + 1}
-            run = ScalarRun(fi.node, {}, vis, points={k_: v for k_, v in pts.items() if v is not None}, helpers=plain_functions(m))
+            run = ScalarRun(fi.node, {}, vis, points={k_: v for k_, v in pts.items() if v is not None}, helpers=plain_functions(m),
+                            records=record_classes(prog, m))
             run.run()
             seen_logs = max(seen_logs, len(run.log_args))
             inputs = set(pts.values())
@@ -1375,6 +1637,20 @@ class _EarlyExit(Exception):
     pass
 
 
+class RecVal(tuple):
+    """a plain record built by the code under evaluation: the tuple of its field values, with the field names"""
+    names: list = []
+    props: dict = {}
+
+
+class ModeTable(dict):
+    """a ThrustModeValues built in the code itself: {member name: value}.  Positional construction assigns in the order
+    of the enumeration (C12-R6 checks the constructor), a missing mode reads as 0.0 (ThrustModeValues.__getitem__)"""
+
+
+MODE_TABLE_USES: list = []        # calls of ThrustModeValues.broadcast a ScalarRun has read as a per-point look-up
+
+
 def _lin_interp(x, xp, fp, left=None, right=None, extrapolate=False):
     """np.interp(x, xp, fp) for ascending xp, exactly: end values held outside the table unless told otherwise"""
     if len(xp) != len(fp) or len(xp) < 2 or any(a >= b for a, b in zip(xp, xp[1:])):
@@ -1421,7 +1697,9 @@ class ScalarRun:
     NUM_FUNCS = ('float', 'float64', 'float32', 'asarray', 'array', 'squeeze', 'item', 'double')
 
     def __init__(self, fn, tables, consts, tracked=(), env=None, enums=None, wrappers=(), module_tree=None, points=None,
-                 helpers=None, pointwise=False, _depth=0):
+                 helpers=None, pointwise=False, _depth=0, records=None):
+        # records: record_classes(..) of the module; a plain record built on the way is the tuple of its fields with names
+        self.records = records
         self.fn, self.tables, self.consts, self.tracked = fn, tables, consts, tuple(tracked)
         # helpers: name -> FunctionDef of plain functions of the same module; a call of one is run the same way (arguments
         # bound to its parameters, per-mode tables passed by name follow) and its returned value is the call's value
@@ -1441,6 +1719,7 @@ class ScalarRun:
         self.enums = enums or {}
         self.wrappers = set(wrappers)
         self.returned = OPQ
+        self.notes = []          # (node, remark) about library behaviour that shaped this run's result
         self.snapshot = None
         self.snap_line = 0
         self.exited = False
@@ -1484,6 +1763,19 @@ class ScalarRun:
         t = norm(e)
         if t in self.consts:
             return Fraction(self.consts[t])
+        if not (isinstance(e.value, ast.Name) and e.value.id not in self.env):
+            rv = self.ev(e.value)
+            if isinstance(rv, RecVal):
+                if e.attr in rv.names:
+                    return rv[rv.names.index(e.attr)]
+                if e.attr in rv.props:
+                    me_, body = rv.props[e.attr]
+                    saved, self.env = self.env, {me_: rv}
+                    try:
+                        return self.ev(body)
+                    finally:
+                        self.env = saved
+                return OPQ
         if isinstance(e.value, ast.Name) and e.attr in self.enums.get(e.value.id, ()) and e.value.id not in self.env:
             return t                      # a member of an enumeration: a token that only compares equal to itself
         if e.attr in ('value', 'data') and isinstance(self.ev(e.value), str):
@@ -1500,6 +1792,51 @@ class ScalarRun:
 
     ev_List = ev_Tuple
 
+    def ev_GeneratorExp(self, e):
+        """(f(x) for x in <tuple value or enumeration>): the tuple of its elements, in order (it is only ever consumed
+        whole - tuple(), list(), np.array(), unpacking); anything else about it is OPQ"""
+        if len(e.generators) != 1 or e.generators[0].is_async or not isinstance(e.generators[0].target, ast.Name):
+            return OPQ
+        g = e.generators[0]
+        it = g.iter
+        if isinstance(it, ast.Call) and call_name(it) in ('list', 'tuple', 'iter') and len(it.args) == 1 and not it.keywords:
+            it = it.args[0]
+        backwards = False
+        while isinstance(it, ast.Call) and call_name(it) in ('reversed', 'list', 'tuple', 'iter') and len(it.args) == 1 and not it.keywords:
+            backwards ^= call_name(it) == 'reversed'
+            it = it.args[0]
+        if isinstance(it, ast.Name) and it.id in self.enums and it.id not in self.env:
+            items = tuple(f'{it.id}.{m}' for m in self.enums[it.id])
+        else:
+            items = self.ev(it)
+        if not isinstance(items, tuple):
+            return OPQ
+        if backwards:
+            items = items[::-1]
+        name = g.target.id
+        missing = object()
+        saved = self.env.get(name, missing)
+        out = []
+        try:
+            for x in items:
+                self.env[name] = x
+                keep = True
+                for c in g.ifs:
+                    t = self.truth(self.ev(c))
+                    if t is OPQ:
+                        return OPQ
+                    keep = keep and t
+                if keep:
+                    out.append(self.ev(e.elt))
+        finally:
+            if saved is missing:
+                self.env.pop(name, None)
+            else:
+                self.env[name] = saved
+        return tuple(out)
+
+    ev_ListComp = ev_GeneratorExp
+
     def ev_Subscript(self, e):
         if isinstance(e.value, ast.Name) and e.value.id in self.tables and e.value.id not in self.env:
             k = e.slice
@@ -1510,16 +1847,42 @@ class ScalarRun:
                 return self.tables[e.value.id][kv.split('.')[-1]]
             return OPQ
         v = self.ev(e.value)
+        if isinstance(v, tuple) and isinstance(e.slice, ast.Slice):
+            bounds = [None if b_ is None else self.ev(b_) for b_ in (e.slice.lower, e.slice.upper, e.slice.step)]
+            if all(b_ is None or (isinstance(b_, Fraction) and b_.denominator == 1) for b_ in bounds) and bounds[2] != 0:
+                return v[slice(*(None if b_ is None else int(b_) for b_ in bounds))]
+            return OPQ
         if isinstance(v, tuple):
             i = self.ev(e.slice)
+            if isinstance(i, bool):
+                return OPQ
             if isinstance(i, Fraction) and i.denominator == 1 and -len(v) <= i < len(v):
                 return v[int(i)]
+        if isinstance(v, ModeTable):
+            k = self._mode_of(self.ev(e.slice))
+            return OPQ if k is None else v.get(k, Fraction(0))
+        return OPQ
+
+    def _mode_of(self, v):
+        """member name when v is a token of the ThrustMode enumeration"""
+        if isinstance(v, str) and v.startswith('ThrustMode.') and v.split('.')[-1] in self.enums.get('ThrustMode', ()):
+            return v.split('.')[-1]
+        return None
+
+    def ev_Dict(self, e):
+        if None in e.keys:
+            return OPQ
+        ks = [self._mode_of(self.ev(k)) for k in e.keys]
+        if e.keys and all(k is not None for k in ks) and len(set(ks)) == len(ks):
+            return ModeTable(zip(ks, (self.ev(v) for v in e.values)))
         return OPQ
 
     def ev_UnaryOp(self, e):
         v = self.ev(e.operand)
         if isinstance(e.op, ast.Not):
             return (not v) if isinstance(v, bool) else (v == 0 if isinstance(v, Fraction) else OPQ)
+        if isinstance(e.op, ast.Invert):
+            return (not v) if isinstance(v, bool) else OPQ          # ~mask, element-wise
         if isinstance(v, bool):
             v = Fraction(int(v))
         if isinstance(v, Fraction):
@@ -1531,6 +1894,8 @@ class ScalarRun:
         return self.arith(e.op, a, b, e)
 
     def arith(self, op, a, b, where):
+        if isinstance(a, bool) and isinstance(b, bool) and isinstance(op, (ast.BitAnd, ast.BitOr, ast.BitXor)):
+            return (a and b) if isinstance(op, ast.BitAnd) else (a or b) if isinstance(op, ast.BitOr) else (a != b)   # masks
         if isinstance(a, bool):
             a = Fraction(int(a))
         if isinstance(b, bool):
@@ -1623,15 +1988,76 @@ class ScalarRun:
         f = call_name(e).split('.')[-1]
         if isinstance(e.func, ast.Attribute) and f in ('item', 'squeeze', 'copy') and not e.args:
             return self.ev(e.func.value)
+        if isinstance(e.func, ast.Attribute) and f in ('astype', 'view') and len(e.args) == 1 and not e.keywords \
+                and isinstance(self.ev(e.func.value), bool):
+            # a mask counted as a number: True is 1, False is 0
+            to = norm(e.args[0]).split('.')[-1].strip('\'"')
+            b_ = self.ev(e.func.value)
+            return b_ if to in ('bool', 'bool_') else Fraction(int(b_)) if to.startswith(('int', 'uint', 'float')) or to in ('int', 'float', 'intp') else OPQ
         if self.pointwise and isinstance(e.func, ast.Attribute) and f in ('as_array', 'astype', 'to_numpy', 'ravel', 'flatten') \
                 and isinstance(self.ev(e.func.value), Fraction):
             return self.ev(e.func.value)
         if isinstance(e.func, ast.Attribute) and f == 'as_array' and not e.args and isinstance(e.func.value, ast.Name) \
                 and e.func.value.id in self.tables and e.func.value.id not in self.env:
             return tuple(self.tables[e.func.value.id][m] for m in THRUST_MODES)   # enumeration order: C12-R6
-        args = [self.ev(a) for a in e.args]
+        args = [self.ev(a.value) if isinstance(a, ast.Starred) else self.ev(a) for a in e.args]
         kw = {k.arg: self.ev(k.value) for k in e.keywords if k.arg}
-        if any(isinstance(a, ast.Starred) for a in e.args) or any(k.arg is None for k in e.keywords):
+        if any(k.arg is None for k in e.keywords):
+            return OPQ
+        if any(isinstance(a, ast.Starred) for a in e.args):
+            # f(*t) with t a tuple of known length is f(t0, t1, ..)
+            flat = []
+            for a, v in zip(e.args, args):
+                if isinstance(a, ast.Starred):
+                    if not isinstance(v, tuple):
+                        return OPQ
+                    flat += list(v)
+                else:
+                    flat.append(v)
+            args = flat
+        decl = self.records.declared(e) if self.records is not None and not (isinstance(e.func, ast.Name) and e.func.id in self.env) else None
+        if decl is not None:
+            fs, props = decl
+            names = [f_ for f_, _ in fs]
+            if len(args) > len(names) or any(k not in names[len(args):] for k in kw):
+                return OPQ
+            vals = dict(zip(names, args))
+            vals.update(kw)
+            for f_, d_ in fs:
+                if f_ not in vals:
+                    if d_ is None:
+                        return OPQ
+                    saved, self.env = self.env, {}
+                    try:
+                        vals[f_] = self.ev(d_)
+                    finally:
+                        self.env = saved
+            rv = RecVal(vals[f_] for f_ in names)
+            rv.names, rv.props = names, props
+            return rv
+        modes = self.enums.get('ThrustMode', ())
+        if f == 'ThrustModeValues' and modes and f not in self.env and set(kw) <= {'mutable'}:
+            # the repository's per-mode container built in place: four positional values in the order of the
+            # enumeration, one array / tuple of four, or a {mode: value} display
+            vals = args[0] if len(args) == 1 and isinstance(args[0], tuple) else tuple(args)
+            if len(args) == 1 and isinstance(args[0], ModeTable):
+                return ModeTable(args[0])
+            if len(vals) == len(modes) and (len(args) == len(modes) or len(args) == 1):
+                return ModeTable(zip(modes, vals))
+            return OPQ
+        if isinstance(e.func, ast.Attribute) and f in ('broadcast', 'as_array', 'copy', 'get') and isinstance(self.ev(e.func.value), ModeTable):
+            tb = self.ev(e.func.value)
+            if f == 'copy':
+                return ModeTable(tb)
+            if f == 'as_array' and not args:
+                return tuple(tb.get(m_, Fraction(0)) for m_ in modes)       # enumeration order: C12-R6
+            if f == 'broadcast' and len(args) == 1 and not kw:
+                # element-wise: the value of the mode the point is in (C12-R6 checks the method)
+                k = self._mode_of(args[0])
+                if k is None:
+                    return OPQ
+                MODE_TABLE_USES.append(e)
+                return tb.get(k, Fraction(0))
             return OPQ
         if isinstance(e.func, ast.Name) and e.func.id in self.helpers and e.func.id not in self.env and self._depth < 3:
             return self.call_helper(self.helpers[e.func.id], e, args, kw)
@@ -1675,8 +2101,8 @@ class ScalarRun:
             return tuple(a.log for a in args[0])
         if f in ('mean', 'average') and len(args) == 1 and isinstance(args[0], tuple) and args[0] and all(num(a) for a in args[0]):
             return sum(args[0]) / len(args[0])
-        if f in ('sum', 'fsum') and len(args) == 1 and isinstance(args[0], tuple) and all(num(a) for a in args[0]):
-            return sum(args[0], Fraction(0))
+        if f in ('sum', 'fsum') and len(args) == 1 and isinstance(args[0], tuple) and all(isinstance(a, (Fraction, bool)) for a in args[0]):
+            return sum((Fraction(int(a)) if isinstance(a, bool) else a for a in args[0]), Fraction(0))
         if f == 'sqrt' and len(args) == 1 and isinstance(args[0], Pos):
             return Pos(args[0].log / 2)
         if f == 'power' and len(args) == 2:
@@ -1719,6 +2145,24 @@ class ScalarRun:
             return args[0]                 # a one-field record around the data
         if f in ('array', 'asarray', 'list', 'tuple') and len(args) == 1 and isinstance(args[0], tuple):
             return args[0]
+        if f in ('take', 'choose') and len(args) == 2 and not kw:
+            tb, ix = (args[0], args[1]) if f == 'take' else (args[1], args[0])
+            if isinstance(tb, tuple) and isinstance(ix, Fraction) and not isinstance(ix, bool) and ix.denominator == 1 and -len(tb) <= ix < len(tb) \
+                    and (f == 'take' or ix >= 0):
+                return tb[int(ix)]
+            return OPQ
+        if f == 'accumulate' and len(args) == 1 and not kw and table(args[0]) and call_name(e).split('.')[-2:-1] in (['maximum'], ['minimum'], ['fmax'], ['fmin']):
+            pick_, acc = (max if 'max' in call_name(e).split('.')[-2] else min), []
+            for x_ in args[0]:
+                acc.append(x_ if not acc else pick_(acc[-1], x_))      # running maximum / minimum
+            return tuple(acc)
+        if f in ('sort', 'sorted') and len(args) == 1 and not kw and isinstance(args[0], tuple) and all(num(x_) for x_ in args[0]) \
+                and not (isinstance(e.func, ast.Attribute) and not call_name(e).startswith(('np.', 'numpy.'))):
+            return tuple(sorted(args[0]))
+        if f in ('cumsum',) and len(args) == 1 and not kw and table(args[0]):
+            return tuple(sum(args[0][:k_ + 1], Fraction(0)) for k_ in range(len(args[0])))
+        if f in ('count_nonzero',) and len(args) == 1 and not kw and isinstance(args[0], tuple) and all(isinstance(x_, (bool, Fraction)) for x_ in args[0]):
+            return Fraction(sum(1 for x_ in args[0] if x_))
         if f in ('digitize', 'searchsorted') and len(args) >= 2:
             x, bins = (args[0], args[1]) if f == 'digitize' else (args[1], args[0])
             right = args[2] if len(args) > 2 else kw.get('right', False) if f == 'digitize' else (kw.get('side', 'left') == 'left')
@@ -1733,6 +2177,8 @@ class ScalarRun:
             if inc:      # numpy: bins[i-1] < x <= bins[i] (right) / bins[i-1] <= x < bins[i]
                 return Fraction(sum(1 for b_ in bins if (b_ < x if right else b_ <= x)))
             if dec:      # numpy: bins[i-1] >= x > bins[i] (right) / bins[i-1] > x >= bins[i]; numbered from the top
+                self.notes.append((e, 'np.digitize reads thresholds that are out of ascending order as *descending* bins and numbers them '
+                                      'from the top, so the looked-up position runs backwards'))
                 return Fraction(sum(1 for b_ in bins if (b_ >= x if right else b_ > x)))
             raise Undecidable('np.digitize needs monotonic bins (numpy raises ValueError otherwise)')
         if f in ('logical_and', 'logical_or') and len(args) == 2:
@@ -1778,8 +2224,9 @@ class ScalarRun:
         for p_ in tables:
             env.pop(p_, None)
         sub = ScalarRun(callee, tables, self.consts, env=env, enums=self.enums, wrappers=self.wrappers, module_tree=self.module_tree,
-                        helpers=self.helpers, pointwise=self.pointwise, _depth=self._depth + 1)
+                        helpers=self.helpers, pointwise=self.pointwise, _depth=self._depth + 1, records=self.records)
         sub.log_args = self.log_args
+        sub.notes = self.notes
         sub.run()
         return sub.returned
 
@@ -1983,7 +2430,7 @@ def hcco_breaks(fn, consts):
     return {b for b in out if b < 10 ** 6}
 
 
-def hcco_evaluate(fn, consts, tables=('x_EI', 'ff_cal'), helpers=None):
+def hcco_evaluate(fn, consts, tables=('x_EI', 'ff_cal'), helpers=None, records=None):
     """Run the prelude of `fn` over the grid; returns (cases, regions hit by the documented rules, mismatches under the
     tolerance reading of "slope == 0", mismatches under the exact reading)."""
     breaks = hcco_breaks(fn, consts)
@@ -1998,7 +2445,8 @@ def hcco_evaluate(fn, consts, tables=('x_EI', 'ff_cal'), helpers=None):
             want, rule = hcco_documented_fit(c['ei'], c['ff'], zero)
             rules.add(rule)
             run = ScalarRun(fn, {tables[0]: {k: Pos(v) for k, v in c['ei'].items()},
-                                 tables[1]: {k: Pos(v) for k, v in c['ff'].items()}}, consts, HCCO_TRACKED, helpers=helpers)
+                                 tables[1]: {k: Pos(v) for k, v in c['ff'].items()}}, consts, HCCO_TRACKED, helpers=helpers,
+                            enums={'ThrustMode': THRUST_MODES}, records=records)
             snap = run.run()
             if snap is None:
                 raise Undecidable('the function returns before any evaluation point is classified' if run.exited else
@@ -2052,7 +2500,7 @@ def rule_hcco(ctx):
     #   whole-array scalings  `A *= f`, `A = A * f`, `return A * f`           -> the ambient factor
     #   masked corrections    `A[M] = g(A[M])`, `A[M] *= f`, `A *= np.where(M, f, 1)`, `A = np.where(M, g(A), A)`
     #                                                                          -> the ACRP low-thrust rule
-    vc = ValueCase(fi.node, module_tree=m.tree, opener=same_module_opener(m))
+    vc = ValueCase(fi.node, module_tree=m.tree, opener=same_module_opener(m), records=record_classes(prog, m))
     p_ff = fi.params[0] if fi.params else None
     IDLE_FLOW = 'ff_cal[ThrustMode.IDLE]'
 
@@ -2177,26 +2625,34 @@ def rule_hcco(ctx):
                line=st.lineno, nontrivial=False)
     ren = {f'x_EI[ThrustMode.{k}]': f'EI_{k}' for k in ('IDLE', 'APPROACH', 'CLIMB', 'TAKEOFF')}
     ren.update({f'ff_cal[ThrustMode.{k}]': f'FF_{k}' for k in ('IDLE', 'APPROACH', 'CLIMB', 'TAKEOFF')})
-    hz = [s for t, s, how in stores_to(fi.node) if isinstance(t, ast.Name) and t.id == 'x_horzline']
-    _cmp(ctx, 'C12-R1', fi, 'horizontal level', hz[0].value, H['x_horzline'], {}, rename=ren)
-    nu = single_def_value(fi.node, 'numerator')
-    if nu is not None:
-        # read where it is computed: names with one definition per branch (base_log_fuel, base_log_EI are rebound by the
-        # flatten rule) resolve to the definition that reaches the statement
+    # the straight-line pieces of the prelude, each read where it is computed: names are followed to the definition that
+    # reaches the statement (base_log_fuel, base_log_EI are rebound by the flatten rule), through records and per-mode
+    # tuples that only carry the logarithms (`logs = tuple(np.log10(x[m]) for m in ThrustMode)`, `logs[2]`)
+    vcp = ValueCase(fi.node, module_tree=m.tree, opener=same_module_opener(m), records=record_classes(prog, m),
+                    enums={'ThrustMode': THRUST_MODES})
+
+    def where_computed(name, stop=()):
+        sts = [s for t, s, how in stores_to(fi.node) if isinstance(t, ast.Name) and t.id == name and how in ('assign', 'ann')
+               and getattr(s, 'value', None) is not None]
+        if not sts:
+            return None
+        at = vcp.node_of(sts[0])
+        if at is None:
+            return sts[0].value
         try:
-            vc = ValueCase(fi.node)
-            st_ = [st for t, st, how in stores_to(fi.node) if isinstance(t, ast.Name) and t.id == 'numerator'][0]
-            at = vc.node_of(st_)
-            if at is not None:
-                nu = ast.copy_location(vc.resolve(nu, at, stop=('slope',), quiet=True), nu)
+            return ast.copy_location(vcp.resolve(sts[0].value, at, stop=stop, quiet=True), sts[0].value)
         except Undecidable:
-            pass
-        _cmp(ctx, 'C12-R1', fi, 'intercept numerator', nu, H['x_intercept_num'], {}, rename=ren, stop=('slope',))
-    sn = single_def_value(fi.node, 'slope_num')
-    sd = single_def_value(fi.node, 'slope_den')
-    if sn is not None and sd is not None:
-        _cmp(ctx, 'C12-R1', fi, 'slope numerator', sn, 'log10(EI_APPROACH) - log10(EI_IDLE)', {}, rename=ren)
-        _cmp(ctx, 'C12-R1', fi, 'slope denominator', sd, 'log10(FF_APPROACH) - log10(FF_IDLE)', {}, rename=ren)
+            return sts[0].value
+    hz = where_computed('x_horzline')
+    if hz is None:
+        ctx.undecided('C12-R1', fi, 'horizontal level', 'no assignment to x_horzline')
+    _cmp(ctx, 'C12-R1', fi, 'horizontal level', hz, H['x_horzline'], {}, rename=ren)
+    if single_def_value(fi.node, 'numerator') is not None:
+        _cmp(ctx, 'C12-R1', fi, 'intercept numerator', where_computed('numerator', stop=('slope',)), H['x_intercept_num'], {},
+             rename=ren, stop=('slope',))
+    if single_def_value(fi.node, 'slope_num') is not None and single_def_value(fi.node, 'slope_den') is not None:
+        _cmp(ctx, 'C12-R1', fi, 'slope numerator', where_computed('slope_num'), 'log10(EI_APPROACH) - log10(EI_IDLE)', {}, rename=ren)
+        _cmp(ctx, 'C12-R1', fi, 'slope denominator', where_computed('slope_den'), 'log10(FF_APPROACH) - log10(FF_IDLE)', {}, rename=ren)
     # R5: the clamping rules, decided by running the scalar prelude over every sign / position case
     for label, src, expect_bad in (('documented chain', HCCO_CONTROL, False), ('flatten rule tested first', HCCO_CONTROL_REORDERED, True)):
         cfn = ast.parse(src).body[0]
@@ -2206,7 +2662,8 @@ def rule_hcco(ctx):
         ctx.control('C12-R5', hit if expect_bad else not cbad, f'embedded HC/CO prelude ({label}) is '
                     + ('refused in the region of rule (a) with a positive slope' if expect_bad else 'accepted in every region'))
     try:
-        ncases, res = hcco_evaluate(fi.node, vis, helpers={k: v for k, v in plain_functions(m).items() if v is not fi.node})
+        ncases, res = hcco_evaluate(fi.node, vis, helpers={k: v for k, v in plain_functions(m).items() if v is not fi.node},
+                                    records=record_classes(prog, m))
     except Undecidable as ex:
         ctx.undecided('C12-R5', fi, 'HC/CO clamping rules', str(ex))
     bad, regions = res[False]
@@ -2227,10 +2684,20 @@ def rule_hcco(ctx):
         names = {'a': '(a) intercept above the climb flow: clamp the break point to the climb flow',
                  'b': '(b) intercept below the approach flow with negative slope: level := approach EI, break point := approach flow',
                  'c': '(c) non-negative slope: flat fit at the high-power level', 'none': 'no clamping rule applies'}
+        # which certification number the code's fit sits on where the documented one does not (a clamp to the wrong mode)
+        hint = []
+        for i_, (label_, src_) in enumerate((('break point', 'ff'), ('level', 'ei'))):
+            if got[i_] != want[i_]:
+                on = [k for k, v in c[src_].items() if v == got[i_]]
+                was = [k for k, v in c[src_].items() if v == want[i_]]
+                if on and rule != 'none':
+                    hint.append(f"the code's {label_} is the {on[0]} calibration {'flow' if src_ == 'ff' else 'index'}"
+                                + (f', documented the {was[0]} one' if was else ''))
         ctx.ob('C12-R5', fi, 'HC/CO clamping rules (a) (b) (c) over slope sign x intercept position', False,
-               f'the documented clamping rules are not applied in the documented order (a) (b) (c): for {_describe_case(c, zero)} '
-               f'the rule table says {names[rule]} -> {_fit_words(want)}; the code yields {_fit_words(got)} '
-               f'({len(bad)} of {ncases} cases differ)', line=chain_line)
+               f'the fit does not follow the documented clamping rules (a) (b) (c), applied in that order: for {_describe_case(c, zero)} '
+               f'the rule table says {names[rule]} -> {_fit_words(want)}; the code yields {_fit_words(got)}'
+               + (' [' + '; '.join(hint) + ']' if hint else '') +
+               f' ({len(bad)} of {ncases} cases differ)', line=chain_line)
 
 
 HCCO_CONTROL = '''
@@ -2274,7 +2741,7 @@ def rule_sox(ctx):
     ren = {'fuel.fuel_sulfur_content_nom': 'FSC', 'fuel.sulfate_yield_nom': 'EPS'}
     # read off the record returned: each field followed back to one expression over the fuel's sulfur content and
     # sulfate yield (locals, the module's own helpers, constants), whatever the intermediate names
-    vc = ValueCase(fi.node, module_tree=m.tree, opener=same_module_opener(m))
+    vc = ValueCase(fi.node, module_tree=m.tree, opener=same_module_opener(m), records=record_classes(prog, m))
     rets = [n for n in walk_no_nested(fi.node) if isinstance(n, ast.Return) and n.value is not None]
     # the return that builds the record is the computed result (a return that hands out a stored record is T-MEMO's business)
     built = [(r, record_fields(prog, m, vc, r)) for r in rets if vc.node_of(r) is not None]
@@ -2495,7 +2962,56 @@ def rule_mode_layout(ctx):
     ctx.floor('C12-R6/init', n, 2, 'positional constructors of ThrustModeValues')
 
 
+def rule_broadcast(ctx):
+    """R6, on demand: where an element-wise routine looks a per-mode value up with ThrustModeValues.broadcast(modes), the
+    evaluation reads the call as "the value of the mode the point is in".  That is what the method must do: every point
+    whose mode is m gets self[m], for every member m of the enumeration."""
+    if not MODE_TABLE_USES:
+        return
+    cls = ctx.prog.cls('performance/types.py', 'ThrustModeValues')
+    b = cls.methods.get('broadcast')
+    if b is None or len(b.params) != 2:
+        ctx.undecided('C12-R6', (cls.file, cls.name), 'broadcast', 'method broadcast(self, modes) not found')
+    me, modes = b.params
+
+    def own_value(v, key):
+        """self[key] / self._data[key] / self._data.get(key, 0.0)"""
+        if isinstance(v, ast.Subscript) and norm(v.value) in (me, f'{me}._data'):
+            return norm(v.slice) == key
+        if isinstance(v, ast.Call) and isinstance(v.func, ast.Attribute) and v.func.attr == 'get' and norm(v.func.value) in (me, f'{me}._data') \
+                and v.args and (len(v.args) == 1 or const_value(v.args[1]) == 0):
+            return norm(v.args[0]) == key
+        return False
+    ok = None
+    loops = [x for x in walk_no_nested(b.node) if isinstance(x, ast.For)]
+    comps = [x for x in walk_no_nested(b.node) if isinstance(x, (ast.ListComp, ast.GeneratorExp))]
+    if len(loops) == 1 and not comps and isinstance(loops[0].target, ast.Name) and norm(loops[0].iter) in ('ThrustMode', 'list(ThrustMode)'):
+        mv = loops[0].target.id
+        sts = [(t, st) for t, st, how in stores_to(loops[0]) if isinstance(t, ast.Subscript)]
+        if len(sts) == 1 and isinstance(sts[0][1], ast.Assign) and isinstance(sts[0][0].slice, ast.Compare) and len(sts[0][0].slice.ops) == 1 \
+                and isinstance(sts[0][0].slice.ops[0], ast.Eq):
+            t, st = sts[0]
+            sides = [norm(t.slice.left), norm(t.slice.comparators[0])]
+            arr = [x for x in sides if x.split('.')[0] == modes]
+            key = [x for x in sides if x in (mv, f'{mv}.value')]
+            rets = [r.value for r in walk_no_nested(b.node) if isinstance(r, ast.Return) and r.value is not None]
+            direct = st in loops[0].body
+            if len(arr) == 1 and len(key) == 1 and direct and len(rets) == 1 and norm(rets[0]) == norm(t.value):
+                ok = own_value(st.value, mv)
+    elif not loops and len(comps) == 1 and len(comps[0].generators) == 1 and not comps[0].generators[0].ifs \
+            and isinstance(comps[0].generators[0].target, ast.Name) and norm(comps[0].generators[0].iter).split('.')[0].split('(')[0] == modes:
+        c = comps[0].generators[0].target.id
+        ok = own_value(comps[0].elt, c) or own_value(comps[0].elt, f'ThrustMode({c})')
+    if ok is None:
+        ctx.undecided('C12-R6', b, 'broadcast', 'the per-point look-up of ThrustModeValues.broadcast is written in a form that is not followed '
+                      f'(used by `{norm(MODE_TABLE_USES[0])[:60]}`)')
+    ctx.ob('C12-R6', b, 'broadcast gives every point the value of its own mode', ok,
+           'result[modes == m] = self[m] for every member of ThrustMode' if ok else
+           'a point does not get the value stored for its own thrust mode', line=b.node.lineno, nontrivial=False)
+
+
 def run(ctx):
+    del MODE_TABLE_USES[:]
     rule_isa(ctx)
     rule_mode_layout(ctx)
     rule_ffm2(ctx)
@@ -2503,6 +3019,7 @@ def run(ctx):
     rule_hcco(ctx)
     rule_sox(ctx)
     rule_pm(ctx)
+    rule_broadcast(ctx)
     ctx.note('NOT decided: MEEM; numerical behaviour of the HC/CO bilinear fit; finiteness / non-negativity over the input range')
     ctx.assumptions += ['reference_equations.py is a faithful transcription of the cited publications',
                         'numpy elementary functions (exp, log, log10, power) implement the mathematical functions']
